@@ -251,11 +251,11 @@ def units(ctx):
 
 
 SPEC = Spec(
-    lean=['IntervalMeasure.lean', 'Folds.lean'],
+    lean=['IntervalMeasure.lean', 'Folds.lean', 'Sweep.lean'],
     prop=PROP, level="proof",
     functions=[(UT, "merge_kernel_intervals"), (CA, "CommunicationAnalysis.get_comm_comp_overlap.get_comm_comp_overlap_value"), (CA, "CommunicationAnalysis.get_comm_comp_overlap")],
     units=units, bounded=[Bounded("overlap_vs_measure", bounded), Bounded("history_independence", history.stage(PROP, "overlap", "gen"))],
-    trusted=["Lean lemmas L1, L3, L4 (sweep lemma and integral of a step function) turn S1-S4 + M1 into the measure statement; the z3 part proves S1-S4 and M1-M3 from the code",
+    trusted=["Lean lemmas L1, L4 (lean/IntervalMeasure.lean) and L3 (lean/Sweep.lean), machine-checked, turn S1-S4 + M1 into the measure statement; the z3 part proves S1-S4 and M1-M3 from the code; the instantiation of the lemmas with those facts is by reading, not mechanised",
              "fold meta-lemma for ghost accumulators and sums (L5)",
              "get_kernel_type uninterpreted; sort_values(by='time') yields non-decreasing times (any order among equal times)"],
     assumptions=["at least one communication kernel of positive total length (else 0/0)"],
